@@ -616,6 +616,11 @@ func execVest(x *Exec, toks []string) string {
 			a, _ := sdk.AccAddressFromBech32(o.s)
 			lk := app.BankKeeper.LockedCoins(x.ctx, a)
 			for _, d := range denoms {
+				// the monitor's own expectation only uses well-formed denoms: a malformed one that slipped
+				// through ValidateBasic must crash (or not) in the HANDLER under test, not here
+				if sdk.ValidateDenom(d) != nil {
+					continue
+				}
 				if v := lk.AmountOf(d); v.IsPositive() {
 					amt = amt.Add(sdk.NewCoin(d, v))
 				}
